@@ -218,13 +218,25 @@ class Memory:
                 raise PathEnd('uaf', 'symbolic pointer can reach freed region %s' % (r.name or r.id))
             cands.append((r, z3.simplify(p - lo), inreg))
             excl.append(z3.Not(inreg))
-            if len(cands) > 8:
-                raise Inconclusive('symbolic pointer with more than 8 candidate regions')
+            if len(cands) > 48:
+                raise Inconclusive('symbolic pointer with more than 48 candidate regions')
         if not cands:
             raise PathEnd('infeasible')
         if len(cands) == 1:
             return [(cands[0][0], cands[0][1], None)]
         return cands
+
+    def _null_conds(self, t, g):
+        if t[0] == 'leaf':
+            return [g] if t[1].as_long() == 0 else []
+        return self._null_conds(t[2], z3.And(g, t[1])) + self._null_conds(t[3], z3.And(g, z3.Not(t[1])))
+
+    def _tree_load_nonnull(self, st, t, nbytes):
+        if t[0] == 'leaf':
+            if t[1].as_long() == 0:
+                return bv(0, 8 * nbytes)   # infeasible leaf (checked by the caller)
+            return self.load(st, t[1], nbytes)
+        return z3.If(t[1], self._tree_load_nonnull(st, t[2], nbytes), self._tree_load_nonnull(st, t[3], nbytes))
 
     def _load_region(self, r, off, nbytes):
         if isinstance(off, int):
@@ -251,13 +263,50 @@ class Memory:
                     continue
                 res = z3.If(off == bv(o, w), v, res)
             return res
-        for o in range(r.size - nbytes, -1, -1):
+        step = 1
+        if nbytes in (2, 4, 8, 16):
+            low = z3.simplify(z3.Extract(nbytes.bit_length() - 2, 0, off))
+            if z3.is_bv_value(low) and low.as_long() == 0:
+                step = nbytes      # the offset is provably a multiple of the access size
+        last = (r.size - nbytes) // step * step
+        for o in range(last, -1, -step):
             bs = [r.get(o + i) for i in range(nbytes)]
             v = z3.Concat(*reversed(bs)) if nbytes > 1 else bs[0]
             res = v if res is None else z3.If(off == bv(o, w), v, res)
         return res
 
+    def _ite_tree(self, p, budget=[0]):
+        """(cond, then, else) decomposition of a pointer term that is an ite-tree over concrete pointers; None otherwise."""
+        if z3.is_bv_value(p):
+            return ('leaf', p)
+        if z3.is_app_of(p, z3.Z3_OP_ITE):
+            a = self._ite_tree(p.arg(1))
+            b = self._ite_tree(p.arg(2))
+            if a is None or b is None:
+                return None
+            return ('ite', p.arg(0), a, b)
+        return None
+
+    def _tree_load(self, st, t, nbytes):
+        if t[0] == 'leaf':
+            v = t[1].as_long()
+            if v == 0:
+                raise PathEnd('oob', 'load through a pointer that can be NULL')
+            return self.load(st, t[1], nbytes)
+        return z3.If(t[1], self._tree_load(st, t[2], nbytes), self._tree_load(st, t[3], nbytes))
+
     def load(self, st, p, nbytes):
+        p = z3.simplify(p)
+        if not z3.is_bv_value(p):
+            t = self._ite_tree(p)
+            if t is not None:
+                # NULL leaves must be infeasible under the path condition, otherwise the access is a violation
+                nulls = self._null_conds(t, z3.BoolVal(True))
+                if nulls:
+                    ok, _ = st.solver.feasible(st.pc, z3.Or(*nulls))
+                    if ok:
+                        raise PathEnd('oob', 'load through a pointer that can be NULL')
+                return self._tree_load_nonnull(st, t, nbytes)
         c = self.resolve(st, p, nbytes)
         if len(c) == 1:
             return self._load_region(c[0][0], c[0][1], nbytes)
